@@ -92,7 +92,7 @@ open Wharf Wharf.Patch
 
 /-- A pool that may fail but never panics (true of the filesystem pool and of the checking pool). -/
 def PoolNoPanic (p : Pool) : Prop :=
-  (∀ f off len s, p.read f off len ≠ .panic s) ∧ (∀ f s, p.flen f ≠ .panic s)
+  (∀ f off len s, p.read f off len ≠ .panic s) ∧ (∀ f s, p.flen f ≠ .panic s) ∧ (∀ f s, p.readAll f ≠ .panic s)
 
 /-- C10 (applier): for ANY list of messages with arbitrary field values (indices and spans negative, zero
     or huge, unknown types, swapped series kinds, missing or duplicated end markers, controls seeking
